@@ -7,6 +7,7 @@ import LoraVerif.Lemmas.Accept
 import LoraVerif.Lemmas.RefineNb
 import LoraVerif.Lemmas.HistoryCSafe
 import LoraVerif.Lemmas.DelayInv
+import LoraVerif.Lemmas.RefineListen
 /-!
 # C04 — no received frame or network command can panic or hang the device
 
@@ -533,3 +534,249 @@ end C04
 #print axioms C04.async_no_panic_timing_from
 #print axioms C04.async_no_panic_timing
 #print axioms C04.nb_no_panic
+
+/-! ## `Device::rxc_listen` (builder Q)
+
+`asyncListen` (`Model/Device.lean`) is the loop of `async_device::Device::rxc_listen` over a script of
+radio answers: `rx_continuous`, `handle_rxc` under the size limit computed before the loop, `NoUpdate`
+goes on listening, the response is converted with `ListenResponse::from` (`panic!` on anything but
+`DownlinkReceived` / `SessionExpired`).  `Lemmas/RefineListen.lean`: the call refines the histories (a list of
+`Ev.rxc`), and sessions may contain listen calls (`AsyncCall`, `asyncCalls_runC`). -/
+namespace C04
+
+/-- **`rxc_listen` never panics and never hangs.**  From any well-formed MAC state, for EVERY finite
+script of radio answers (frames with any decoded view, errors, nothing heard): the call returns — no
+panic of the MAC, the conversion `ListenResponse::from` is never reached with a response it panics on
+(a `.ok` answer is `SessionExpired` or `DownlinkReceived`), and the loop ends (`hang "rxc_listen"` is
+unreachable: every turn consumes an answer of the radio) — and leaves a well-formed state. -/
+theorem async_listen_no_panic (r : DevRun) (h : MacWF r.m) (hv : scriptWF r.script = true) :
+    ∃ res r', asyncListen r = .ok (res, r') ∧ MacWF r'.m ∧ r'.m.region.id = r.m.region.id ∧
+      ∀ resp, res = .ok resp → resp = .sessionExpired ∨ ∃ n, resp = .downlinkReceived n := by
+  obtain ⟨⟨res, r'⟩, he, hk⟩ := asyncListen_tot r h hv
+  refine ⟨res, r', he, hk.1, hk.2.1, ?_⟩
+  obtain ⟨outs, _, hrel⟩ := asyncListen_refines (σ := Unit) (fun s => (0, s)) () r res r' he
+  intro resp hres
+  subst hres
+  have hf := hrel.fcnt
+  unfold ListenFcnt at hf
+  cases resp with
+  | downlinkReceived n => exact Or.inr ⟨n, rfl⟩
+  | sessionExpired => exact Or.inl rfl
+  | noAck => exact absurd hf.1 (by simp)
+  | noJoinAccept => exact absurd hf.1 (by simp)
+  | joinSuccess => exact absurd hf.1 (by simp)
+  | noUpdate => exact absurd hf.1 (by simp)
+  | rxComplete => exact absurd hf.1 (by simp)
+
+theorem asyncOps_single {σ} (g : Rng σ) (cfg : DevCfg) (d : DevRun) (rs : σ) (o : AsyncOp) :
+    asyncOps g cfg d rs [o] = (asyncOp g cfg d rs o >>= fun x => pure ([x.1], x.2.1, x.2.2)) := by
+  simp only [asyncOps]
+  cases asyncOp g cfg d rs o with
+  | error e => rfl
+  | ok x => rfl
+
+/-- one call from a well-formed state: it can only fail with the front-end's own timer arithmetic or the
+history's own failures that are no panics; if it returns the state is well-formed again, same region -/
+theorem asyncCall_keeps {σ} (g : Rng σ) (cfg : DevCfg) (d : DevRun) (rs : σ) (c : AsyncCall) (h : MacWF d.m)
+    (hv : c.valid d.m.region.id = true) (ob : CallObs) (d' : DevRun) (rs' : σ)
+    (hr : asyncCall g cfg d rs c = .ok (ob, d', rs')) : Keeps d.m d'.m := by
+  obtain ⟨ocs, hrun, _⟩ := asyncCall_runC g cfg d rs c ob d' rs' hr
+  cases c with
+  | op o =>
+    exact (runC_safe g d.m rs [abstractOp cfg o] h (by
+      intro ev hev
+      simp only [List.mem_singleton] at hev
+      subst hev
+      exact abstractOp_valid cfg _ o hv)).elim hrun
+  | listen script =>
+    simp only [asyncCall] at hr
+    obtain ⟨⟨res, d1⟩, hl, hk⟩ := Except.bind_eq_ok hr
+    simp only [pure, Except.pure, Except.ok.injEq, Prod.mk.injEq] at hk
+    obtain ⟨rfl, rfl, rfl⟩ := hk
+    exact (asyncListen_tot { d with script := script } h hv).elim hl
+
+/-- **no session of the async front-end — sends, joins, setters and `rxc_listen` calls in any order —
+panics in the MAC, whatever the radio answers**: from any well-formed state, both classes, every list
+of valid calls, every script: a panic of `asyncCalls` can only be the timer arithmetic
+`delay + tx_ms − lead` of a `send` / `join` (`async_no_panic_from` extended to sessions with listens). -/
+theorem asyncCalls_no_panic_from {σ} (g : Rng σ) (cfg : DevCfg) (d : DevRun) (rs : σ) (calls : List AsyncCall)
+    (h : MacWF d.m) (hv : ∀ c ∈ calls, c.valid d.m.region.id = true) (site : String)
+    (hp : asyncCalls g cfg d rs calls = .error (.panic site)) :
+    site = "rx start delay overflow" ∨ site = "rx start delay underflow" := by
+  induction calls generalizing d rs with
+  | nil => cases hp
+  | cons c rest ih =>
+    unfold asyncCalls at hp
+    cases hc : asyncCall g cfg d rs c with
+    | error e =>
+      rw [hc] at hp
+      simp only [bind, Except.bind, Except.error.injEq] at hp
+      subst hp
+      cases c with
+      | op o =>
+        refine async_no_panic_from g cfg d rs [o] h (by
+          intro op hop
+          simp only [List.mem_singleton] at hop
+          subst hop
+          exact hv _ List.mem_cons_self) site ?_
+        rw [asyncOps_single]
+        simp only [asyncCall] at hc
+        cases ho : asyncOp g cfg d rs o with
+        | error e' =>
+          rw [ho] at hc
+          simp only [bind, Except.bind, Except.error.injEq] at hc
+          subst hc
+          rfl
+        | ok x =>
+          rw [ho] at hc
+          cases hc
+      | listen script =>
+        exfalso
+        obtain ⟨x, hx, _⟩ := asyncListen_tot { d with script := script } h (hv _ List.mem_cons_self)
+        simp only [asyncCall, hx, bind, Except.bind, pure, Except.pure] at hc
+        cases hc
+    | ok x =>
+      obtain ⟨ob, d1, rs1⟩ := x
+      rw [hc] at hp
+      simp only [bind, Except.bind] at hp
+      have hk := asyncCall_keeps g cfg d rs c h (hv _ List.mem_cons_self) ob d1 rs1 hc
+      cases hr : asyncCalls g cfg d1 rs1 rest with
+      | error e =>
+        rw [hr] at hp
+        simp only [Except.error.injEq] at hp
+        subst hp
+        exact ih d1 rs1 hk.1 (fun c' hc' => by rw [hk.2.1]; exact hv c' (List.mem_cons_of_mem _ hc')) hr
+      | ok y =>
+        rw [hr] at hp
+        cases hp
+
+/-- … in particular from the initial state of every region -/
+theorem asyncCalls_no_panic {σ} (g : Rng σ) (cfg : DevCfg) (r : RegionId) (maxPower : Nat) (gain : Int) (rs : σ)
+    (calls : List AsyncCall) (hg : gainOk r gain = true) (hv : ∀ c ∈ calls, c.valid r = true) (site : String)
+    (hp : asyncCalls g cfg (asyncStart (MacState.init (RegionState.init r) maxPower gain)) rs calls = .error (.panic site)) :
+    site = "rx start delay overflow" ∨ site = "rx start delay underflow" :=
+  asyncCalls_no_panic_from g cfg _ rs calls (init_wf r maxPower gain hg) (by cases r <;> exact hv) site hp
+
+/-- every state a session with listen calls reaches is well-formed again -/
+theorem asyncCalls_wf {σ} (g : Rng σ) (cfg : DevCfg) (d d' : DevRun) (rs rs' : σ) (calls : List AsyncCall) (obs : List CallObs)
+    (h : MacWF d.m) (hv : ∀ c ∈ calls, c.valid d.m.region.id = true)
+    (hr : asyncCalls g cfg d rs calls = .ok (obs, d', rs')) : MacWF d'.m := by
+  induction calls generalizing d rs obs with
+  | nil =>
+    simp only [asyncCalls, pure, Except.pure, Except.ok.injEq, Prod.mk.injEq] at hr
+    obtain ⟨_, rfl, _⟩ := hr
+    exact h
+  | cons c rest ih =>
+    unfold asyncCalls at hr
+    obtain ⟨⟨ob, d1, rs1⟩, hc, hk⟩ := Except.bind_eq_ok hr
+    obtain ⟨⟨obs1, d2, rs2⟩, hrest, hk2⟩ := Except.bind_eq_ok hk
+    simp only [pure, Except.pure, Except.ok.injEq, Prod.mk.injEq] at hk2
+    obtain ⟨_, rfl, rfl⟩ := hk2
+    have hkp := asyncCall_keeps g cfg d rs c h (hv _ List.mem_cons_self) ob d1 rs1 hc
+    exact ih d1 rs1 obs1 hkp.1 (fun c' hc' => by rw [hkp.2.1]; exact hv c' (List.mem_cons_of_mem _ hc')) hrest
+
+theorem runC_delayOk {σ} (g : Rng σ) (ms ms' : MacState × σ) (evs : List EvC) (ocs : List OutC) (hd : DelayOk ms.1)
+    (h : runC g ms evs = .ok (ms', ocs)) : DelayOk ms'.1 := by
+  induction evs generalizing ms ocs with
+  | nil =>
+    simp only [runC, pure, Except.pure, Except.ok.injEq, Prod.mk.injEq] at h
+    obtain ⟨rfl, _⟩ := h
+    exact hd
+  | cons ev rest ih =>
+    unfold runC at h
+    obtain ⟨⟨ms1, oc⟩, hstep, hk⟩ := Except.bind_eq_ok h
+    obtain ⟨⟨ms2, ocs2⟩, hrun, hk2⟩ := Except.bind_eq_ok hk
+    simp only [pure, Except.pure, Except.ok.injEq, Prod.mk.injEq] at hk2
+    obtain ⟨rfl, _⟩ := hk2
+    obtain ⟨m, s⟩ := ms
+    exact ih ms1 ocs2 (stepC_delayOk g m s ev ms1 oc hd hstep) hrun
+
+/-- **no session with listen calls panics at all** when the board's timing constants are sane
+(`async_no_panic_timing_from` extended: `rxc_listen` has no timer arithmetic, and the events of a listen
+call keep the RX1 delay in range like every other event) -/
+theorem asyncCalls_no_panic_timing_from {σ} (g : Rng σ) (cfg : DevCfg) (hT : TimingOk cfg) (d : DevRun) (rs : σ)
+    (calls : List AsyncCall) (h : MacWF d.m) (hd : DelayOk d.m) (hv : ∀ c ∈ calls, c.valid d.m.region.id = true)
+    (site : String) : asyncCalls g cfg d rs calls ≠ .error (.panic site) := by
+  induction calls generalizing d rs with
+  | nil => intro hp; cases hp
+  | cons c rest ih =>
+    intro hp
+    unfold asyncCalls at hp
+    cases hc : asyncCall g cfg d rs c with
+    | error e =>
+      rw [hc] at hp
+      simp only [bind, Except.bind, Except.error.injEq] at hp
+      subst hp
+      cases c with
+      | op o =>
+        refine async_no_panic_timing_from g cfg hT d rs [o] h hd (by
+          intro op hop
+          simp only [List.mem_singleton] at hop
+          subst hop
+          exact hv _ List.mem_cons_self) site ?_
+        rw [asyncOps_single]
+        simp only [asyncCall] at hc
+        cases ho : asyncOp g cfg d rs o with
+        | error e' =>
+          rw [ho] at hc
+          simp only [bind, Except.bind, Except.error.injEq] at hc
+          subst hc
+          rfl
+        | ok x =>
+          rw [ho] at hc
+          cases hc
+      | listen script =>
+        obtain ⟨x, hx, _⟩ := asyncListen_tot { d with script := script } h (hv _ List.mem_cons_self)
+        simp only [asyncCall, hx, bind, Except.bind, pure, Except.pure] at hc
+        cases hc
+    | ok x =>
+      obtain ⟨ob, d1, rs1⟩ := x
+      rw [hc] at hp
+      simp only [bind, Except.bind] at hp
+      have hk := asyncCall_keeps g cfg d rs c h (hv _ List.mem_cons_self) ob d1 rs1 hc
+      obtain ⟨ocs, hrun, _⟩ := asyncCall_runC g cfg d rs c ob d1 rs1 hc
+      have hd1 : DelayOk d1.m := runC_delayOk g (d.m, rs) (d1.m, rs1) _ ocs hd hrun
+      cases hr : asyncCalls g cfg d1 rs1 rest with
+      | error e =>
+        rw [hr] at hp
+        simp only [Except.error.injEq] at hp
+        subst hp
+        exact ih d1 rs1 hk.1 hd1 (fun c' hc' => by rw [hk.2.1]; exact hv c' (List.mem_cons_of_mem _ hc')) hr
+      | ok y =>
+        rw [hr] at hp
+        cases hp
+
+/-- … in particular from the initial state of every region -/
+theorem asyncCalls_no_panic_timing {σ} (g : Rng σ) (cfg : DevCfg) (hT : TimingOk cfg) (r : RegionId) (maxPower : Nat) (gain : Int)
+    (rs : σ) (calls : List AsyncCall) (hg : gainOk r gain = true) (hv : ∀ c ∈ calls, c.valid r = true) (site : String) :
+    asyncCalls g cfg (asyncStart (MacState.init (RegionState.init r) maxPower gain)) rs calls ≠ .error (.panic site) :=
+  asyncCalls_no_panic_timing_from g cfg hT _ rs calls (init_wf r maxPower gain hg) (init_delayOk _ _ _) (by cases r <;> exact hv) site
+
+/-! non-vacuity: a Class C session — ABP, an uplink, then `rxc_listen` hearing a forged frame, a replay-free
+authentic downlink (acted upon: the call returns) and a frame it never gets to -/
+
+def listenFrame (w : Nat) (N : Option Nat) : ScriptItem :=
+  .frame 2 (.data { len := 14, confirmed := false, fcnt16 := w, micFcnt := N, fopts := [], fport := some 3, payload := [7] })
+
+def demoCalls : List AsyncCall :=
+  [ .op (.abp 7 1 2),
+    .op (.send [1] 1 false []),
+    .listen [listenFrame 5 none, listenFrame 6 (some 6), listenFrame 7 (some 7)],
+    .listen [listenFrame 6 (some 6), .err],
+    .listen [] ]
+
+example : ∀ c ∈ demoCalls, c.valid .EU868 = true := by decide +kernel
+example : MacWF (asyncStart (MacState.init (RegionState.init .EU868) 14 2)).m := by decide +kernel
+example : (asyncCalls lcg demoCfg (asyncStart (MacState.init (RegionState.init .EU868) 14 2)) 1 demoCalls).toOption.map
+    (fun r => (r.1.map (fun o => match o with | .listen res => some res | _ => none), r.2.1.m.fcntUp?, r.2.1.downlinks)) =
+    some ([none, none, some (.ok (.downlinkReceived 6)), some .errRadio, some .listening], some 2, [(3, [7])]) := by
+  decide +kernel
+
+end C04
+
+#print axioms C04.async_listen_no_panic
+#print axioms C04.asyncCalls_no_panic_from
+#print axioms C04.asyncCalls_no_panic
+#print axioms C04.asyncCalls_wf
+#print axioms C04.asyncCalls_no_panic_timing_from
+#print axioms C04.asyncCalls_no_panic_timing
